@@ -1,7 +1,8 @@
 """SimGeom family: C17 (simulated cameras are memory-safe and honour the shape they report).  DESIGN 6.17.
 
 prove -> build -> corpus -> correspond (extent/alignment probes, set/get histories, whole-camera histories under ASan
-with a real streamer thread, native runs) -> independent property oracle -> violations with minimised replay.
+with a real streamer thread incl. re-configuration sequences, native runs) -> independent property oracle -> search step
+for allocation-log disagreements (extend with start; frame; stop, run under ASan) -> violations with minimised, re-verified replay.
 """
 import os
 import re
@@ -820,6 +821,15 @@ def fold_histories(ctx, impl, label, hists, mrecs, irecs, env, build_name, nontr
             ctx.traces_validated += 1
 
 
+def short_exposure(op):
+    """The streamer sleeps for the exposure time before it publishes a frame (set/get histories use up to 16.7 s): the
+    extended runs use at most 2.5 ms.  The exposure takes no part in the geometry; distinct values stay distinct."""
+    w = op.split()
+    if w[0] == "set" and int(w[7]) > 2500:
+        w[7] = str(2400 + int(w[7]) % 97)
+    return " ".join(w)
+
+
 def search_alloc_disagreements(ctx, impl, env, alloc_dis, where, limit=6):
     """Search step for allocation-log disagreements.  A set whose reallocations differ from the model's is not by itself a
     violation of C17 (an implementation may keep a buffer that is large enough).  It is one exactly when the buffers are then
@@ -834,7 +844,7 @@ def search_alloc_disagreements(ctx, impl, env, alloc_dis, where, limit=6):
     todo = []
     for a in alloc_dis:
         h, d = a["history"], a["op_index"]
-        core = [o for o in h[1:d + 1] if o.split()[0] in ("set", "start", "stop", "frame")]
+        core = [short_exposure(o) for o in h[1:d + 1] if o.split()[0] in ("set", "start", "stop", "frame")]
         running = False
         for o in core:
             running = o == "start" or (running and o != "stop")
@@ -843,8 +853,10 @@ def search_alloc_disagreements(ctx, impl, env, alloc_dis, where, limit=6):
         if sig in seen:
             continue
         seen.add(sig)
-        last = next((cfg_of_set(o) for o in reversed(core) if o.startswith("set") and cfg_of_set(o)), None)
-        todo.append((cfg_pixels(last) * BPP[last["t"]] if last else 0, core, tail, a))
+        cfgs = [c for c in (cfg_of_set(o) for o in core if o.startswith("set")) if c]
+        # cost of the extended run: every buffer the prefix allocates plus the image rendered at the end
+        cost = sum(cfg_pixels(c) * BPP[c["t"]] for c in cfgs + cfgs[-1:])
+        todo.append((cost, core, tail, a))
     # the number of extended runs is bounded: the `limit` cheapest disagreements that leave the implementation with smaller
     # buffers than the model (the candidates for an overflow), plus the 2 cheapest of the others as a cross-check
     todo.sort(key=lambda x: x[0])
@@ -942,10 +954,13 @@ def run(ctx):
                 "much as the model says is needed (clean) / half of it (UBSan must report) -- boundary widths/heights 1,31,32,33,...,8191,8192 "
                 "and random ones; (2) set/get histories (no thread) with unrestricted requested shapes, all binning bytes incl. rejected ones; "
                 "(3) whole-camera histories new/set/get/start/get_frame x1..3/frameshort/stop/set... for every (kind, sample type, binning in "
-                "1,2,4,8) triple plus random ones, on the real linux platform.c with a real streamer pthread under ASan+UBSan, image buffers "
+                "1,2,4,8) triple plus random ones plus 60 re-configuration histories (5 patterns x 3 kinds x 4: same shape with binning up / "
+                "down, same bytes or same dims with another sample type, shrink then grow, several sets while stopped between two runs; "
+                "each ends with a rendered frame after its last set), on the real linux platform.c with a real streamer pthread under ASan+UBSan, image buffers "
                 "handed out 16 bytes after a 32-byte boundary, caller buffers sentinel-filled; (4) the same on an unsanitised -O2 build with "
                 "glibc malloc.  Model and implementation must print identical lines (allocation sizes, get/get_shape/get_meta values, bytes "
-                "written).  non-trivial = at least one accepted set and one delivered frame (3,4), a clamp or a binning > 1 acted (2), "
+                "written).  Search: every set whose allocation log differs from the model's is extended with start; frame; stop for every "
+                "camera kind and run under ASan; only a sanitizer report / oracle finding on that run is a violation.  non-trivial = at least one accepted set and one delivered frame (3,4), a clamp or a binning > 1 acted (2), "
                 "a non-empty extent (1); distinct = distinct op text")
     ctx.assumptions = ["allocation succeeds (<= 256 MiB per buffer) and returns 16-byte aligned blocks (alignof(max_align_t))",
                        "set is not called while the streamer renders with a configuration that changes the buffer size (data race outside the sequential model; "
